@@ -46,7 +46,7 @@ static struct {
 	char *nwbase[RT_MAXT]; int wobjs[RT_MAXT][8]; int nwobjs[RT_MAXT]; int nwheap[RT_MAXT]; int nwinit[RT_MAXT];
 	waiter *wt[RT_MAXT]; int swnote[RT_MAXT], swlive[RT_MAXT]; long vgiven[RT_MAXT], vtaken[RT_MAXT];
 	int seen_notified[MAXOBJ]; int called[MAXOBJ]; int lpar[MAXOBJ]; int pending_new[RT_MAXT]; int notify_returned[MAXOBJ];
-	int ideal;
+	int ideal; int cz;
 	int *cells;          /* client data for the happens-before oracle (C03), one cell per thread */
 	int hbdata;
 } S;
@@ -162,14 +162,22 @@ static void client (void *arg) {
 				/* nsync_wait_n (NULL, .., dl, count, notes given by the digits of a): both the on-stack (count <= 4) and the heap path */
 				struct nsync_waitable_s w[8], *pw[8]; int cnt = 0, d, r, div = 1, k;
 				for (d = o->a; d >= 10; d /= 10) div *= 10;
-				for (d = o->a; div > 0; div /= 10) { int id = (d / div) % 10; S.wobjs[t][cnt] = id; w[cnt].v = S.note[id]; w[cnt].funcs = &nsync_note_waitable_funcs; pw[cnt] = &w[cnt]; cnt++; }
+				for (d = o->a; div > 0; div /= 10) {
+					int id = (d / div) % 10; S.wobjs[t][cnt] = id;
+					if (id == 9) { w[cnt].v = S.c; w[cnt].funcs = &nsync_counter_waitable_funcs; }
+					else { w[cnt].v = S.note[id]; w[cnt].funcs = &nsync_note_waitable_funcs; }
+					pw[cnt] = &w[cnt]; cnt++;
+				}
 				S.nwobjs[t] = cnt; S.nwbase[t] = NULL; S.nwinit[t] = 0;
 				r = nsync_wait_n (NULL, NULL, NULL, deadline (o->dl), cnt, pw);
 				if (r < cnt) {
 					int id = S.wobjs[t][r], x = id, cause = 0;
-					for (k = 0; k < MAXOBJ && x != 0; k++, x = S.lpar[x]) if (S.called[x] || expired (S.dl_of[x])) cause = 1;
-					if (!cause) rt_violation ("O-ret", "nsync_wait_n returned index %d (note %d) but that note has no reason to be notified", r, id);
-					S.seen_notified[id] = 1;
+					if (id == 9) { if (!S.cz) rt_violation ("O-ret", "nsync_wait_n returned index %d (the counter) but the counter has never been zero", r); }
+					else {
+						for (k = 0; k < MAXOBJ && x != 0; k++, x = S.lpar[x]) if (S.called[x] || expired (S.dl_of[x])) cause = 1;
+						if (!cause) rt_violation ("O-ret", "nsync_wait_n returned index %d (note %d) but that note has no reason to be notified", r, id);
+						S.seen_notified[id] = 1;
+					}
 				} else {
 					if (!expired (o->dl)) rt_violation ("O-ret", "nsync_wait_n returned count (timeout) at clock %ld before its deadline %d", (long) (rt_now () - RT_T0), o->dl);
 				}
@@ -189,6 +197,9 @@ static void client (void *arg) {
 				else rt_violation ("O-ret", "nsync_sem_wait_with_cancel_ returned %d", r);
 				if (must && r != ECANCELED) rt_violation ("O-lin", "nsync_sem_wait_with_cancel_ returned %d although nsync_note_notify of note %d or of an ancestor had returned before the call", r, a);
 				S.ret[t] = r;
+			} else if (!strcmp (o->name, "cadd")) {
+				uint32_t r = nsync_counter_add (S.c, a);
+				S.ret[t] = (int) r;
 			} else if (!strcmp (o->name, "semv")) {
 				nsync_mu_semaphore_v (&S.wt[a - 1]->sem);
 				S.ret[t] = 0;
@@ -270,6 +281,9 @@ static void setup (const char *init) {
 			}
 		}
 		p = strstr (cur_init, "NN="); S.nnotes = p ? atoi (p + 3) : 4;
+		p = strstr (cur_init, "CV0="); S.v0 = p ? atoi (p + 4) : 0;
+		S.c = nsync_counter_new ((uint32_t) S.v0); rt_name (S.c, sizeof *S.c, "counter");       /* the counter that "waitn" object 9 stands for */
+		S.cz = S.v0 == 0;
 		if (strstr (cur_init, "swc.")) for (i = 0; i < S.n; i++) { char nm[16]; S.wt[i] = nsync_waiter_new_ (); snprintf (nm, sizeof nm, "waiter%d", i + 1); rt_name (S.wt[i], sizeof *S.wt[i], nm); }
 	}
 	for (i = 0; i < S.n; i++) { S.ret[i] = -1; rt_spawn (client, (void *) (long) i); }
@@ -358,6 +372,16 @@ static void obs (char *buf, size_t n) {
 		PUTARR ("sem", sem_of (i));
 		o += (size_t) snprintf (buf + o, n - o, " now=%ld", (long) (rt_now () - RT_T0));
 		PUTARR ("ret", S.ret[i]);
+		o += (size_t) snprintf (buf + o, n - o, " cval=%u cq=", *(volatile uint32_t *) &S.c->value);
+		o += put_owner_list (buf + o, n - o, S.c->waiters);
+		o += (size_t) snprintf (buf + o, n - o, " clk=%d", rt_ideal_holder ? rt_ideal_holder (&S.c->counter_mu) : 0);
+		o += (size_t) snprintf (buf + o, n - o, " nwc=[");
+		for (i = 0; i < S.n; i++) {
+			int j, v = 0;
+			if (S.nwbase[i] && S.nwrec[i] && !(S.nwheap[i] && rt_is_freed (S.nwbase[i]))) for (j = 0; j < S.nwobjs[i] && j < S.nwinit[i]; j++) if (S.wobjs[i][j] == 9) v = (int) *(volatile uint32_t *) (S.nwbase[i] + sizeof (struct nsync_waiter_s) * (size_t) j + offsetof (struct nsync_waiter_s, waiting));
+			o += (size_t) snprintf (buf + o, n - o, "%s%d", i ? "," : "", v);
+		}
+		o += (size_t) snprintf (buf + o, n - o, "]");
 	} else if (S.kind == K_ONCE) {
 		o += (size_t) snprintf (buf + o, n - o, "once=[%u,%u] runs=[%d,%d] fdone=[%d,%d]", *(volatile uint32_t *) S.once[0], *(volatile uint32_t *) S.once[1],
 					S.runs[0], S.runs[1], S.done[0], S.done[1]);
@@ -402,6 +426,7 @@ static void note_step (int t) {
 		if (!strcmp (fb, "nsync_wait_n")) { S.nwbase[t] = (char *) o->addr - offsetof (struct nsync_waiter_s, waiting); S.nwheap[t] = rt_stack_owner (o->addr) < 0; S.nwrec[t] = o->addr; S.nwinit[t] = 0; }
 	}
 	if (S.kind == K_NOTE && o->kind == OP_ST && S.nwbase[t]) { char fb[64]; rt_op_fn (o, fb, sizeof fb); if (!strcmp (fb, "nsync_wait_n")) S.nwinit[t]++; }
+	if (S.kind == K_NOTE && S.c && o->kind == OP_CAS && o->ok && o->addr == (void *) &S.c->value && o->b == 0) S.cz = 1;
 	if (S.kind == K_COUNTER && o->kind == OP_CAS && o->ok && o->addr == (void *) &S.c->value && S.nhist < 256) {
 		if ((long) o->b != (long) o->a + S.prog_delta[t]) rt_violation ("O-lin", "the counter went from %u to %u in an add of %d", o->a, o->b, S.prog_delta[t]);
 		S.hist[S.nhist++] = (int) o->b; S.expect[t] = (long) o->b;
@@ -417,6 +442,7 @@ static void note_step (int t) {
 			if (strcmp (fb, "nsync_sem_wait_with_cancel_") != 0 && strcmp (fb, "nsync_wait_n") != 0) continue;
 			for (j = 0; j < nob; j++) {
 				int a = S.swlive[u] ? S.swnote[u] : S.wobjs[u][j];
+				if (a <= 0 || a >= MAXOBJ) continue;      /* object 9 is the counter */
 				for (k = 0, x = a; k < MAXOBJ && x != 0; k++, x = S.lpar[x]) if (S.notify_returned[x]) {
 					rt_violation ("O-prog", "thread %d is still asleep in %s on note %d although nsync_note_notify of note %d had returned", u + 1, fb, a, x);
 					return;
